@@ -11,6 +11,8 @@ claimed={
        "HandleValidationResponse is used through its interface contract; qualified no-cache field stripping inside the range-over-func loop of serveFromCache is framed but the 'every listed field is removed' clause is not yet proved. "+TRUST),
  "C18":("proof","The upstream RoundTripper's contract carries the precondition 'the request does not carry only-if-cached'; the modular rule generates that obligation at every call site (roundTripTimed, both calls in handleUnrecognizedMethod) and propagates it to handleCacheHit, handleCacheMiss and RoundTrip, whose postcondition is: only-if-cached => no upstream call in this exchange.","Sec. 6 C18",
        "Meaning of the Cache-Control text (which directives a header carries) is the uninterpreted dirsHas(ccText(h)); ParseCCRequestDirectives is trusted to compute it (C12). Background goroutines are not executed in the proof. "+TRUST),
+ "C13":("proof","Contracts of CanStaleOnError (loop invariant over the directive sources: allowed only if some source's stale-if-error window contains the current staleness; strict; saturating) and of HandleValidationResponse (the stored response is returned only after a 304, or on a failed validation - transport error, 500/502/503/504 - when neither must-revalidate nor no-cache applies and the stored response's or the request's stale-if-error window holds; otherwise the origin's reply or error).","Sec. 6 C13",
+       "The 'is returned inside the window' direction is proved for CanStaleOnError, not yet lifted to the handler; dispatch over the two directive map types is an assumed interface contract derived from the two verified methods. "+TRUST),
 }
 checks=[]
 for p in props:
